@@ -645,6 +645,10 @@ class Output(object):
         if not isinstance(network, Network):
             self.network = Network(network)
         self.value = value_to_satoshi(value, network=network)
+        if self.value != int(self.value) or self.value < 0:
+            raise TransactionError("Output value must be a non-negative integer number of the smallest denominator, "
+                                   "not %s" % self.value)
+        self.value = int(self.value)
         # a script given as bytes is a raw script (to_bytes would read bytes that happen to be ASCII hex digits as hex text)
         self.lock_script = b'' if lock_script is None else lock_script if isinstance(lock_script, bytes) else to_bytes(lock_script)
         self.public_hash = to_bytes(public_hash)
@@ -1943,8 +1947,13 @@ class Transaction(object):
             lock_script = to_bytes(lock_script)
         if output_n is None:
             output_n = len(self.outputs)
+        if isinstance(value, Value):
+            # float() and int() of a Value are in whole coins, the output amount is in the smallest denominator
+            value = value.value_sat
         if not float(value).is_integer():
             raise TransactionError("Output must be of type integer and contain no decimals")
+        if value < 0:
+            raise TransactionError("Output value < 0 not allowed")
         if lock_script.startswith(b'\x6a'):
             if value != 0:
                 raise TransactionError("Output value for OP_RETURN script must be 0")
